@@ -101,6 +101,15 @@ type seg struct {
 	write bool // single entity if write
 	hold  int
 	multi bool // one RLock(ids...) call instead of one per id
+	dup   bool // the multi-id call lists its first entity twice (a recursive read lock, which the starving mutex allows)
+}
+
+// ids is the id list of a multi-id RLock/RUnlock call.
+func (sg *seg) ids() []int {
+	if sg.dup {
+		return append(append([]int{}, sg.ents...), sg.ents[0])
+	}
+	return sg.ents
 }
 
 func dag(s *simrt.Sim) {
@@ -126,6 +135,7 @@ func dag(s *simrt.Sim) {
 			}
 			sg.write = s.Choose(2) == 1
 			sg.multi = s.Choose(2) == 1
+			sg.dup = sg.multi && !sg.write && s.Choose(4) == 3
 			segs = append(segs, sg)
 		}
 		s.Logf("script %s %+v", name, segs)
@@ -138,8 +148,8 @@ func dag(s *simrt.Sim) {
 						h.acquire(s, name, e, true)
 					}
 				} else if sg.multi {
-					m.RLock(sg.ents...)
-					for _, e := range sg.ents {
+					m.RLock(sg.ids()...)
+					for _, e := range sg.ids() {
 						h.acquire(s, name, e, false)
 					}
 				} else {
@@ -152,15 +162,21 @@ func dag(s *simrt.Sim) {
 				for k := 0; k < sg.hold; k++ {
 					simrt.Yield()
 				}
-				for _, e := range sg.ents {
-					h.release(e, sg.write)
+				if sg.multi && !sg.write {
+					for _, e := range sg.ids() {
+						h.release(e, false)
+					}
+				} else {
+					for _, e := range sg.ents {
+						h.release(e, sg.write)
+					}
 				}
 				if sg.write {
 					for _, e := range sg.ents {
 						m.Unlock(e)
 					}
 				} else if sg.multi {
-					m.RUnlock(sg.ents...)
+					m.RUnlock(sg.ids()...)
 				} else {
 					for _, e := range sg.ents {
 						m.RUnlock(e)
